@@ -660,7 +660,11 @@ def ts5(ctx, pid):
     """Proof accumulation: every visited non-blank node is in the tuple that is returned or passed down;
     descent consumes exactly the matched key; the verifier stores every proof node as a root-addressable node."""
     eng = S(ctx)
-    f = H(ctx, "_get_proof")
+    f, form = util.proof_walker(ctx)
+    if form == "gen":
+        _ts5_generator(ctx, f)
+        _ts5_verifier(ctx)
+        return
     ps = f.params[1:]
     if len(ps) < 4:
         raise AnalysisError("anchor vanished: _get_proof(self, node, trie_key, proven_len, last_proof)")
@@ -754,6 +758,120 @@ def ts5(ctx, pid):
         ctx.ok("proof-entry:HexaryTrie.get_proof", g.loc(), "get_proof(key) = _get_proof(root node, nibbles(key)) with the default accumulator")
     else:
         ctx.bad("proof-entry:HexaryTrie.get_proof", g.loc(), "get_proof returns `%s`" % "; ".join(tstr(r)[:70] for r in rets))
+    _ts5_verifier(ctx)
+
+
+def _ts5_gen_path(ctx, f, st, kind, acts, node, key, ck, ksw, probs, rows):
+    eng = S(ctx)
+    if kind == "BLANK":
+        if acts:
+            probs.append("blank node: `%s` is yielded (a blank node is not part of a proof)" % tstr(acts[0][1])[:40])
+        return
+    if not acts or acts[0] != ("yield", node):
+        probs.append("%s node: the walk %s without yielding the node first" % (kind, "goes on" if acts else "ends"))
+        return
+    rest = acts[1:]
+    if any(a[0] == "yield" for a in rest):
+        probs.append("%s node: more than one node is yielded in one step" % kind)
+        return
+
+    def key_empty():
+        for t, pol, _ in st.log:
+            tt, pp = truth_norm(t, pol)
+            if tt == key:
+                return not pp
+        lo, hi = eng.len_of(key, st.facts)
+        return True if hi == 0 else (False if lo >= 1 else None)
+    kswv = None
+    for t, pol, _ in st.log:
+        tt, pp = truth_norm(t, pol)
+        if tt == ksw:
+            kswv = pp
+    if not rest:
+        rows.setdefault(kind, set()).add("stop")
+        if kind == "BRANCH" and key_empty() is not True:
+            probs.append("branch: the walk stops at a branch although the key is not exhausted")
+        if kind == "EXT" and kswv is not False and key_empty() is not True:  # (an exhausted key cannot continue a non-empty path)
+            probs.append("extension: the walk stops at an extension whose path the key does continue")
+        return
+    if len(rest) != 1 or rest[0][1][0] != "call" or rest[0][1][1] != f.qual:
+        probs.append("%s node: after the node `%s` follows, expected the walk below the child" % (kind, tstr(rest[0][1])[:50]))
+        return
+    args = rest[0][1][2][1:]
+    if len(args) != 2:
+        probs.append("%s node: the walk is continued with %d arguments" % (kind, len(args)))
+        return
+    nxt, k2 = args
+    if kind == "EXT":
+        if kswv is not True:
+            probs.append("extension: descent without key_starts_with(key, extension path)")
+        if nxt != ("call", HEX + ".get_node", (("self",), ("sub", node, C(1))), ()):
+            probs.append("extension: next node is `%s`, expected get_node(node[1])" % tstr(nxt)[:50])
+        if k2 != ("slice", key, ("len", ck), None):
+            probs.append("extension: the key below is `%s`, expected key[len(extension path):]" % tstr(k2)[:50])
+        extra = [truth_norm(t, pol) for t, pol, _ in st.log if truth_norm(t, pol)[0][0] in ("cmp",) and "len" in tstr(t)]
+        if extra:
+            probs.append("extension: descent additionally requires `%s`; a key ending exactly at the extension's end must still descend into the branch below" % tstr(extra[0][0])[:60])
+        rows.setdefault(kind, set()).add("descend")
+    elif kind == "BRANCH":
+        if key_empty() is not False:
+            probs.append("branch: the walk descends below a branch although the key is exhausted")
+        if nxt != ("call", HEX + ".get_node", (("self",), ("sub", node, ("sub", key, C(0)))), ()):
+            probs.append("branch: next node is `%s`, expected get_node(node[key[0]])" % tstr(nxt)[:60])
+        if k2 != ("slice", key, C(1), None):
+            probs.append("branch: the key below is `%s`, expected key[1:]" % tstr(k2)[:50])
+        rows.setdefault(kind, set()).add("descend")
+    else:
+        probs.append("descent below a %s node" % kind)
+
+
+def _ts5_generator(ctx, f):
+    """The proof walker as a generator (`get_proof` = tuple(walker(root node, nibbles(key)))): per node kind, the
+    node is yielded exactly once before anything else happens with it; a leaf ends the walk; an extension is
+    left only when the key does not continue its path, and entered with get_node(node[1]) and the key minus the
+    path; a branch ends the walk exactly on an exhausted key and is entered with get_node(node[key[0]]), key[1:]."""
+    eng = S(ctx)
+    node, key = ("p", f.params[1]), ("p", f.params[2])
+    ck = ("call", NODES + "extract_key", (node,), ())
+    ksw = ("call", NODES + "key_starts_with", (key, ck), ())
+    probs = []
+    rows = {}
+    n = 0
+    for p, st in pq.states(ctx, f):
+        if p.exit[0] not in ("return", "fall"):
+            continue
+        ks = eng.kind_of(node, st.facts)
+        n += 1
+        acts = []
+        for ev in st.events:
+            if ev.k == "yield" and isinstance(ev.node, ast.Yield):
+                acts.append(("yield", eng.ev(ev.node.value, f, st)))
+            elif ev.k == "yieldfrom" and isinstance(ev.node, ast.YieldFrom):
+                acts.append(("from", eng.ev(ev.node.value, f, st)))
+        # a path that does not tell the kinds apart is a path of each of them
+        for kind in sorted(ks):
+            _ts5_gen_path(ctx, f, st, kind, acts, node, key, ck, ksw, probs, rows)
+    want = {"LEAF": {"stop"}, "EXT": {"stop", "descend"}, "BRANCH": {"stop", "descend"}}
+    c = "proof-accumulates:HexaryTrie._get_proof"
+    if probs:
+        ctx.bad(c, f.loc(), probs[0], witness={"problems": sorted(set(probs)), "walker": f.qual})
+    elif rows != want:
+        ctx.bad(c, f.loc(), "proof walker outcomes per kind are %s, expected %s" % ({k: sorted(v) for k, v in rows.items()}, {k: sorted(v) for k, v in want.items()}))
+    else:
+        ctx.ok(c, f.loc(), "generator form (%s): every non-blank node on the path is yielded once, before the descent; extension consumes len(path), branch one nibble (%d paths)" % (f.name, n))
+    ctx.ok("proof-starts-empty:HexaryTrie._get_proof", f.loc(), "the proof is what the generator yields: no accumulator, nothing shared between calls", nontrivial=False)
+    g = H(ctx, "get_proof")
+    rets = pq.rets(ctx, g)
+    inner = ("call", f.qual, (("self",), ("call", HEX + ".get_node", (("self",), ("attr", ("self",), "root_hash")), ()),
+                             ("call", NIB + "bytes_to_nibbles", (("p", "key"),), ())), ())
+    if rets == {("call", "ext:tuple", (inner,), ())}:
+        ctx.ok("proof-entry:HexaryTrie.get_proof", g.loc(), "get_proof(key) = tuple(%s(root node, nibbles(key)))" % f.name)
+    else:
+        ctx.bad("proof-entry:HexaryTrie.get_proof", g.loc(), "get_proof returns `%s`" % "; ".join(tstr(r)[:70] for r in rets))
+
+
+def _ts5_verifier(ctx):
+    eng = S(ctx)
     # verifier: every proof node stored with _set_raw_node (root-addressable), read through at_root(root_hash).get(key)
     v = H(ctx, "get_from_proof")
     srn = H(ctx, "_set_raw_node")
